@@ -654,13 +654,35 @@ class AtLeast(puan.Proposition):
             # than full len of propositions, then this
             # is a mixed of both
             if len(compounds) < len(self.propositions):
-                compounds.append(
-                    AtLeast(
-                        value=self.value,
-                        propositions=atoms,
-                        sign=self.sign,
+                if self.value == 1 and all(map(lambda x: x.bounds.lower >= 0, atoms)):
+                    # sum(atoms) + sum(compounds) >= 1 holds exactly when
+                    # (sum(atoms) >= 1) + sum(compounds) >= 1, so the atoms
+                    # can be grouped into one compound proposition
+                    compounds.append(
+                        AtLeast(
+                            value=self.value,
+                            propositions=atoms,
+                            sign=self.sign,
+                        )
                     )
-                )
+                elif all(map(lambda x: x.bounds.lower >= 0 and x.bounds.upper <= 1, atoms)):
+                    # for any other value the atoms cannot be grouped without
+                    # changing the sum. A boolean atom x equals (x >= 1), so each one
+                    # is wrapped into its own compound proposition instead
+                    compounds.extend(
+                        map(
+                            lambda x: AtLeast(
+                                value=1,
+                                propositions=[x],
+                                sign=puan.Sign.POSITIVE,
+                            ),
+                            atoms
+                        )
+                    )
+                else:
+                    # integer atoms cannot be replaced by boolean compounds,
+                    # keep the (exact) sign flipped proposition as is
+                    return negated
 
             negated.propositions = list(
                 map(
